@@ -22,7 +22,7 @@ EXPLANATION = ('x is an array of distinct atoms, so equality of results is equal
 FUNCTIONS = ['MoveAxisOperator.__init__/mv/transpose/inverse', 'MoveAxisInverseRule', 'RavelOperator.__init__/mv', 'ReshapeOperator.__init__/_check_shape/_normalize_shape/mv',
              'ReshapeTransposeOperator.mv', 'AbstractRavelOrReshapeOperator.transpose/reduce/as_matrix', 'ReshapeInverseRule']
 BOUNDS = {'quick': 'leaf shapes of rank 1-3 with dims in {1,2,3,4}; all scalar source/destination pairs, seeded axis tuples; all (first,last) in range; '
-                   'reshape targets of length <= 3 over {-1,1,2,3,4,6,12} (seeded 150) + illegal targets; 3 pytrees with leaves of different shapes',
+                   'reshape targets of length <= 3 over {-1,1,2,3,4,6,12} (seeded 150) + illegal targets; 60 seeded pytrees of 2-3 leaves over 6 shapes (the unfit leaf at any position) x 6 targets; ravel/move on 5 mixed-rank pytrees',
           'thorough': 'rank <= 4, all axis tuples of length <= 2, all reshape targets'}
 STUBS = []
 ASSUMPTIONS = ['real arithmetic (pure data movement)', 'legality oracle is one-sided: furax may be stricter than NumPy (e.g. refuses a -2 size)']
@@ -85,6 +85,22 @@ def cases(tier, seed):
             out.append(('reshape', (sh,), t))
     for tr, t in [(((2, 3), (6,)), (-1,)), (((2, 3), (3, 2)), (6,)), (((2, 3), (3, 4)), (3, -1)), (((2, 3), (3, 4)), (6,)), (((2, 2), (4,)), (2, 2))]:
         out.append(('reshape', tr, t))
+    # pytrees in which the leaf that cannot take the arguments sits at ANY position (first, middle, last)
+    pool = [(6,), (2, 3), (3, 4), (4,), (2, 2), (1, 6)]
+    multi = []
+    for n in (2, 3):
+        for tr in itertools.product(pool, repeat=n):
+            if len({int(np.prod(s)) for s in tr}) >= 2 or rnd.random() < 0.2:
+                multi.append(tr)
+    rnd.shuffle(multi)
+    for tr in multi[: (len(multi) if tier == 'thorough' else 60)]:
+        for t in [(6,), (-1,), (3, 2), (2, -1), (4,), (3, -1)]:
+            out.append(('reshape', tr, t))
+    for tr in [((2, 3), (3,)), ((3,), (2, 3)), ((2, 3), (3,), (2, 2)), ((2, 3, 4), (2,), (3, 2)), ((2, 3), (2, 3, 4), (4,))]:
+        for f, l in [(0, 1), (-2, -1), (1, 2), (0, -1), (1, 1)]:
+            out.append(('ravel', tr, f, l))
+        for s_, d_ in [(0, 1), (1, 0), (-2, -1), (2, 0), (0, -1)]:
+            out.append(('move', tr, s_, d_))
     seen, res = set(), []
     for k in out:
         if k not in seen:
@@ -108,6 +124,10 @@ def _make(key):
     return lambda: ReshapeOperator(tuple(key[2]), in_structure=ins)
 
 
+class _OutOfScope(Exception):
+    """Arguments the property says nothing about (a ravel axis outside the rank of some leaf)."""
+
+
 def _np_apply(key, arr):
     kind = key[0]
     if kind == 'move':
@@ -116,6 +136,8 @@ def _np_apply(key, arr):
         r = arr.ndim
         f = key[2] + r if key[2] < 0 else key[2]
         l = key[3] + r if key[3] < 0 else key[3]
+        if not (0 <= f < r and 0 <= l < r):
+            raise _OutOfScope(f'axis out of range for rank {r}')
         if f > l:
             raise ValueError('first axis after last axis')
         return arr.reshape(arr.shape[:f] + (int(np.prod(arr.shape[f:l + 1])),) + arr.shape[l + 1:])
@@ -132,6 +154,8 @@ def run_case(key, twin=False):
     legal, why = True, ''
     try:
         want_shapes = [_np_apply(key, np.empty(s)).shape for s in shapes]
+    except _OutOfScope as ex:
+        return skipped(str(ex))
     except Exception as ex:  # noqa: BLE001
         legal, why = False, f'{type(ex).__name__}: {ex}'
     try:
